@@ -370,7 +370,7 @@ func main() {
 		Property: "C06",
 		Level:    "model_checking",
 		Rule: "every termination cause (client DISCONNECT frame, Disconnect(false/true), Engine.IO close with each of its 5 reasons, protocol error, packet for an unknown namespace, connect timeout) x phase (before CONNECT, middleware blocked, idle, burst either way, two namespaces) and every unordered pair of causes at once, each explored to the deviation bound after a default-schedule set-up; " +
-			"sio<->sio over the in-process polling link for Server.Close / Manager.Close / client Disconnect / Disconnect(true) / black-holed link, and the same API causes plus a cut of the new pipe striking at k*L/2 (k=0..7) into a transport upgrade over the duplex pipe of rig R4; and a scripted Engine.IO polling session cut at every k-th byte of every request body and response (fault enumeration). distinct_nontrivial = deviating schedules + cut points",
+			"sio<->sio over the in-process polling link for Server.Close / Manager.Close / client Disconnect / Disconnect(true) / black-holed link, and the same API causes plus a cut of the new pipe striking at k*L/2 (k=0..7) into a transport upgrade over the duplex pipe of rig R4; Server.Close / Manager.Close / client Disconnect issued right after Connect() (connection still being set up); and a scripted Engine.IO polling session cut at every k-th byte of every request body and response (fault enumeration). distinct_nontrivial = deviating schedules + cut points",
 		Scenarios: scenarios,
 		Budget: func(tier string) time.Duration {
 			if tier == "thorough" {
